@@ -182,7 +182,61 @@ func belowSliceOrPtr(root *spec.Node) map[*spec.Node]bool {
 
 var c12KeyUniverse = []string{"k0", "k1", "k2", "k3", "lang"}
 
+// c12InPlace: the caller parses a typed slice into a destination that shares its array (Parse(tags, &tags), a destination
+// emptied with [:0]): every element callback must still be called with its own element's value.
+func c12InPlace(c *core.Ctx) bool {
+	k := c.R.Range(1, 5)
+	orig := make([]string, k)
+	for i := range orig {
+		orig[i] = fmt.Sprintf("%s-%d", gen.Word(c.R), i)
+	}
+	var seenTest, seenPost []string
+	elem := z.String().TestFunc(func(v any, ctx z.Ctx) bool {
+		sv, _ := v.(string) // primitive TestFuncs receive the value itself
+		seenTest = append(seenTest, sv)
+		return true
+	}).PostTransform(func(ptr any, ctx z.Ctx) error {
+		seenPost = append(seenPost, *ptr.(*string))
+		return nil
+	})
+	type rec struct{ Tags []string }
+	variant := c.R.Intn(4)
+	input := append(make([]string, 0, k+2), orig...)
+	var issues z.ZogIssueMap
+	var got []string
+	switch variant {
+	case 0:
+		dest := input
+		issues = z.Slice(elem).Parse(input, &dest)
+		got = dest
+	case 1:
+		dest := input[:0]
+		issues = z.Slice(elem).Parse(input, &dest)
+		got = dest
+	case 2:
+		dest := input[:k-1]
+		issues = z.Slice(elem).Parse(input[1:], &dest)
+		orig, got = orig[1:], dest
+	default:
+		d := rec{Tags: input}
+		issues = z.Struct(z.Schema{"tags": z.Slice(elem)}).Parse(map[string]any{"tags": input}, &d)
+		got = d.Tags
+	}
+	c.Eval(1)
+	want := strings.Join(orig, ",")
+	if issues != nil || strings.Join(seenTest, ",") != want || strings.Join(seenPost, ",") != want || strings.Join(got, ",") != want {
+		c.Violation("callback-value-in-place-parse", map[string]any{"variant(0 same slice,1 emptied,2 overlapping,3 struct field)": variant, "elements": orig, "values_seen_by_tests": seenTest,
+			"values_seen_by_post_transforms": seenPost, "destination": got, "issues": fmt.Sprint(z.Issues.SanitizeMap(issues))})
+		return false
+	}
+	c.Count("in_place_parses", 1)
+	return true
+}
+
 func (c12) RunCase(c *core.Ctx) {
+	if c.Case%20 == 7 && !c12InPlace(c) {
+		return
+	}
 	switch c.Case % 5 {
 	case 3:
 		c12ErrorScenario(c)
